@@ -8,10 +8,41 @@ Contains the BaseObject class.
 from __future__ import annotations
 from typing import TYPE_CHECKING
 from collections.abc import Iterator
+import functools
 import uuid
 
 if TYPE_CHECKING:
     from edgegraph.structure.universe import Universe
+
+
+def invalidates_when_cut_short(invalidator: str):
+    """
+    Decorator factory for methods that change which links or vertices an
+    object is associated with, and end by invalidating cached neighbors.
+
+    Such a method calls into the object on the other side of the association,
+    which may be of a subclass with its own ideas (and its own exceptions).
+    If the method is cut short that way, whatever it had changed by then stays
+    changed, so the invalidation it would have ended with must still happen.
+
+    **FOR INTERNAL USE ONLY!!**
+
+    :param invalidator: name of the (argumentless) method that performs the
+       invalidation
+    """
+
+    def decorate(method):
+        @functools.wraps(method)
+        def wrapper(self, *args, **kwargs):
+            try:
+                return method(self, *args, **kwargs)
+            except BaseException:
+                getattr(self, invalidator)()
+                raise
+
+        return wrapper
+
+    return decorate
 
 
 class BaseObject(object):
